@@ -9,7 +9,7 @@ def impl_model_checks(ctx):
     tier = "quick" if ctx.quick() else "thorough"
     for cfg in ("DownstreamImpl_%s.cfg" % tier, "DownstreamImpl_%s_notry.cfg" % tier):
         ctx.add_tlc(vlib.run_tlc(ctx, "lifecycle", "DownstreamImpl", cfg, timeout=1500))
-    for d in ("NoDeadlineCheck", "SilentExitInUpFilter", "StaleFlagAfterRetry", "NoCleanUpOnRetryAbort"):
+    for d in ("NoDeadlineCheck", "SilentExitInUpFilter", "StaleFlagAfterRetry", "DropRetryStateWithoutRelease"):
         if vlib.run_tlc(ctx, "lifecycle", "DownstreamImpl", "DownstreamImpl_defect_%s.cfg" % d, expect_ok=False)["ok"]:
             raise vlib.Inconclusive("DownstreamImpl does not reject defect " + d)
     if vlib.run_tlc(ctx, "lifecycle", "DownstreamImpl", "DownstreamImpl_loop.cfg", expect_ok=False)["ok"]:
@@ -163,4 +163,6 @@ def lifecycle_sig(pid, kind, case, rt):
     pfx = "" if proto == "http1" else proto + ":"
     if kind in HANG_KINDS and tag:
         return "%s:%stimeout-protection-lost:%s" % (pid, pfx, tag)
+    if case.get("steps"):      # explicit schedule: name it by the gates it holds
+        return "%s:%s%s:hold=%s:during=steps" % (pid, pfx, kind, "+".join(x[5:] for x in case["steps"] if x.startswith("hold:")))
     return "%s:%s%s:hold=%s:during=%s" % (pid, pfx, kind, case.get("hold"), case.get("during"))
